@@ -44,11 +44,12 @@ package polling
 //@ func (*Subscriber).poll
 //@   property C20
 //@   harness harness/poll_progress_test.go
+//@   requires storeNotBehind(s.poller)
 //@   modifies auto
 //@   maypanic
 //@   ensures[progress_is_instances_advanced] _progress == s.poller.NextInstance - old(s.poller.NextInstance)
 //@   loop 1
-//@     invariant s.poller == old(s.poller) && start == old(s.poller.NextInstance) && s.poller.NextInstance >= start
+//@     invariant s.poller == old(s.poller) && start == old(s.poller.NextInstance) && s.poller.NextInstance >= start && storeNotBehind(s.poller)
 
 //@ func (*Subscriber).run
 //@   property C20
@@ -69,6 +70,7 @@ package polling
 //@   modifies auto
 //@   maypanic
 //@   ensures[next_instance_never_decreases] p.NextInstance >= old(p.NextInstance)
+//@   ensures result1 == nil ==> storeNotBehind(p)
 //@   loop 1
 //@     invariant p.NextInstance >= old(p.NextInstance) && p.Store == old(p.Store) && storeNotBehind(p)
 //@   loop 2
